@@ -1,4 +1,6 @@
 import SoxrModel.Config.Lemmas
+import SoxrModel.Config.PlannerLemmas
+import SoxrModel.Config.PlannerRat
 /-!
 # C09 Every configuration is rejected with an error or yields a working resampler
 
@@ -441,21 +443,27 @@ theorem error_recorded (s : Api) (olen : Nat) (fn : FnObs) (h : s.error = none) 
   simp [output, h, hb]
 
 /-- **`soxr_clear` resets the error**: afterwards no error is recorded, unless re-creating the engine (recipes with
-    RESET_ON_CLEAR) fails — then that engine error is recorded. -/
+    RESET_ON_CLEAR) fails — then that engine error is recorded — or the resampler had been torn down by a fatal error
+    (control block zeroed): then `soxr_clear` refuses, returns the error and leaves everything as it is. -/
 theorem clear_resets_error (s : Api) :
-    (clear s).1.error = none ∨ ∃ e, (clear s).1.error = some e ∧ engineCreate s.engine s.ioRatio s.q = some e := by
+    (clear s).1.error = none ∨ (∃ e, (clear s).1.error = some e ∧ engineCreate s.engine s.ioRatio s.q = some e) ∨
+    (s.wiped = true ∧ s.error ≠ none ∧ clear s = (s, .status s.error)) := by
   unfold clear
-  simp only []
   split
-  · split
-    · unfold setIoRatio
-      simp only []
-      repeat' split
-      all_goals first
-        | exact Or.inl rfl
-        | (next he => exact Or.inr ⟨_, rfl, he⟩)
+  · next h =>
+    simp only [Bool.and_eq_true, Option.isSome_iff_ne_none] at h
+    exact Or.inr (Or.inr ⟨h.2, h.1, rfl⟩)
+  · simp only []
+    split
+    · split
+      · unfold setIoRatio
+        simp only []
+        repeat' split
+        all_goals first
+          | exact Or.inl rfl
+          | (next he => exact Or.inr (Or.inl ⟨_, rfl, he⟩))
+      · exact Or.inl rfl
     · exact Or.inl rfl
-  · exact Or.inl rfl
 
 /-- **`soxr_set_error` as written** (`if (!p->error && p->error != error) return p->error;`): it can never record an
     error on a healthy resampler, and it overwrites — or clears — an error that is already recorded. -/
@@ -472,5 +480,118 @@ theorem set_error_as_written (s : Api) (x : Option ErrorKind) :
     split
     · next hn => rw [h] at hn; cases hn.1
     · rfl
+
+/-! ## the stage planner's rate decomposition (`planRates`, Config/Planner.lean)
+
+The model mirrors the stage-determination loop of `_soxr_init` statement by statement and is compared with the real
+planner's exported plan on every run (checks/c09.py, stage `planner`).  Proved here for ALL ratios (any binary64 value)
+and ALL knob settings: the loops end, and the integer skeleton of the plan is bounded. -/
+
+/-- **The `while (!n++)` loop of the planner always ends**: from any state three passes suffice (each repetition uses up
+    one of the two reasons to repeat — splitting off a post stage, bumping `mode` from 0), and more fuel changes nothing. -/
+theorem planner_loop_total (k : Knobs) (st : PSt) :
+    (planLoop k 3 st).again = false ∧ ∀ g, planLoop k (3 + g) st = planLoop k 3 st :=
+  planLoop_three k st
+
+/-- **`planRates` is total**: for every ratio, every knob setting, the plan it returns is one the loop arrived at by itself
+    (never a state cut off by the pass limit of the executable model). -/
+theorem planner_terminates (r : Dbl) (k : Knobs) (g : Bool) : (planRates r k g).finished = true := by
+  rw [(planRates_fields r k g).2.2.2.2.2.2.2.1, planState_finished]; rfl
+
+/-- **The halving loop `for (i = (int)(.5 * arbM); i >>= 1; …)` ends** within 31 rounds for every non-negative `int`: the 64
+    rounds the model allows are never used up, so its result does not depend on that limit.  (`i` is negative only for
+    factors `>= 2^32`, which `_soxr_init` rejects before — finding F4; there the C loop itself never ends.) -/
+theorem planner_halving_total (i : Int) (a : Dbl) (s : Nat) (ok : Bool) (h0 : 0 ≤ i) (h1 : i < 2 ^ 31) (g : Nat) :
+    halve (64 + g) i a s ok = halve 64 i a s ok ∧ (halve 64 i a s ok).2.1 ≤ s + 31 := by
+  have e31 : halve 64 i a s ok = halve 31 i a s ok := halve_fuel 31 33 i a s ok h0 h1
+  refine ⟨?_, ?_⟩
+  · have : 64 + g = 31 + (33 + g) := by omega
+    rw [this, halve_fuel 31 (33 + g) i a s ok h0 h1, e31]
+  · rw [e31]; exact halve_shr_le 31 i a s ok
+
+/-- what a denominator search returns is a denominator within `maxL` whose multiple of `frac` passed the planner's own
+    test `fabs(try / (frac * i) - 1) <= epsilon`, with `try = (int)(frac * i + .5)` -/
+theorem planner_search_spec (frac eps : Dbl) (maxL i : Nat) (t : Int) (h : search frac eps maxL 1 = some (i, t)) :
+    1 ≤ i ∧ i ≤ maxL ∧ t = (add (mul frac (ofNat i)) half).truncInt ∧
+    le (abs (sub (div (ofInt t) (mul frac (ofNat i))) one)) eps = true := by
+  obtain ⟨h1, h2, h3, h4⟩ := search_range frac eps maxL 1 i t h
+  exact ⟨h1, by omega, h3, h4⟩
+
+/-- **Bounds of every plan** (the integer skeleton the well-formedness clauses rest on): the denominator of the
+    arbitrary-ratio stage is at most `max(2048, maxL)`; `postM` is 1 or 2; `postL` is 1 or a power of two from 4 to 256;
+    `preL >= 1`; at most 65 half-band stages (31 for accepted ratios, `planner_halving_total`); at most `shr + 3` stages. -/
+theorem planner_bounds (r : Dbl) (k : Knobs) (g : Bool) :
+    (planRates r k g).arbL ≤ lMax k ∧
+    ((planRates r k g).postM = 1 ∨ (planRates r k g).postM = 2) ∧
+    (∃ b, b ≤ 8 ∧ b ≠ 1 ∧ (planRates r k g).postL = 2 ^ b) ∧
+    1 ≤ (planRates r k g).preL ∧
+    (planRates r k g).shr ≤ 65 ∧
+    (planRates r k g).numStages ≤ (planRates r k g).shr + 3 := by
+  obtain ⟨f1, f2, _, _, f5, f6, _, _, f9⟩ := planRates_fields r k g
+  have h := planState_inv r k
+  obtain ⟨b, h1, h2, h3⟩ := h.postL
+  refine ⟨?_, by rw [f6]; exact h.postM, ⟨b, h1, h3, by rw [f5]; exact h2⟩, by rw [f2]; exact h.preL, by rw [f1]; exact h.shr, ?_⟩
+  · rcases f9 with f9 | f9 <;> rw [f9]
+    · exact h.arbL
+    · omega
+  · have a := b2n_le (planRates r k g).havePre
+    have b := b2n_le ((planRates r k g).haveArb || (planRates r k g).cubic)
+    have c := b2n_le (planRates r k g).havePost
+    unfold RatePlan.numStages; omega
+
+example : (planRates (div (ofNat 44100) (ofNat 48000)) { bitsZero := false, mode0 := 3, interpolator := -1, iOpt := true, kb := 400, sizeofReal := 4 } false).arbL = 80 ∧
+    (planRates (div (ofNat 44100) (ofNat 48000)) { bitsZero := false, mode0 := 3, interpolator := -1, iOpt := true, kb := 400, sizeofReal := 4 } false).arbM = ofInt 147 ∧
+    (planRates (div (ofNat 44100) (ofNat 48000)) { bitsZero := false, mode0 := 3, interpolator := -1, iOpt := true, kb := 400, sizeofReal := 4 } false).preL = 2 := by
+  decide +kernel
+
+/-! ### the product of the stage rates (exact rationals)
+
+`ratioOf st = 2^shr · max(preM,1)/preL · arbM/arbL · postM/postL` is the factor a planner state stands for (`toRat` reads a
+binary64 as the rational it is).  One pass of the loop from a fresh state (`arbL = 1`, true of every pass: `PInv.fresh`)
+that does not split off a post stage: -/
+
+/-- **`rate_product`, no snap**: when the search finds no denominator (an irrational ratio — the stage then runs on a
+    rounded clock step —, or no fraction at all) the product of the stage rates is EXACTLY the value the pass started
+    from (over the post stage already split off), through the small-integer shortcut and the mode retry too. -/
+theorem rate_product_unsnapped (k : Knobs) (st : PSt) (hfin : isFin st.arbM) (hfresh : st.arbL = 1)
+    (hnone : (core k st).found = none) (hp : ¬ takesPost k st (core k st) = true)
+    (hsm : takesSmallInt k (core k st) = true →
+      1 ≤ (core k st).M ∧
+      (((if (core k st).postM == 2 then scale2 (core k st).a4 1 else (core k st).a4).truncNat : ℕ) : ℚ) =
+        toRat (core k st).a4 * (core k st).postM) :
+    ratioOf (iter k st) = toRat st.arbM / st.postL := by
+  rw [iter_ratio k st (by omega) hp hsm, base_unsnapped k st hfin hfresh hnone]
+
+/-- **`rate_product`, snapped**: when the search finds `(i, try)` the product of the stage rates is the starting value times
+    `snapped / arbM` EXACTLY, `arbM` being the value that entered the snap and `snapped` the rational `(int)arbM + try/i`
+    (or `ceil(arbM)`) that replaces it; `planner_search_spec` is the planner's own bound on the two
+    (`fabs(try / (frac * i) - 1) <= epsilon` in binary64). -/
+theorem rate_product_snapped (k : Knobs) (st : PSt) (hfin : isFin st.arbM) (hfresh : st.arbL = 1) (i : Nat) (t : Int)
+    (hsome : (core k st).found = some (i, t)) (hp : ¬ takesPost k st (core k st) = true)
+    (hsm : takesSmallInt k (core k st) = true →
+      1 ≤ (core k st).M ∧
+      (((if (core k st).postM == 2 then scale2 (core k st).a4 1 else (core k st).a4).truncNat : ℕ) : ℚ) =
+        toRat (core k st).a4 * (core k st).postM) :
+    ratioOf (iter k st) * toRat (core k st).a3 = toRat st.arbM / st.postL * snappedValue (core k st).a3 i t := by
+  rw [iter_ratio k st (by omega) hp hsm, base_snapped k st hfin hfresh i t hsome]
+
+/-- the value that enters the snap is the pass's starting value times `preL / (2^shr · postM)`, exactly -/
+theorem rate_before_snap (k : Knobs) (st : PSt) (hfin : isFin st.arbM) :
+    toRat (core k st).a3 * (core k st).postM * (2 : ℚ) ^ (core k st).shr = toRat st.arbM * (core k st).preL :=
+  core_a3 k st hfin
+
+/-- non-vacuity: 44100 → 48000 at HQ snaps to 147/80 after the pre stage doubles the rate (`arbM = 147`, `arbL = 80`,
+    search result `(80, 67)`: 1 + 67/80) -/
+example : (core { bitsZero := false, mode0 := 3, interpolator := -1, iOpt := true, kb := 400, sizeofReal := 4 }
+    { arbM := div (ofNat 44100) (ofNat 48000), mode := 3 }).found = some (80, 67) := by decide +kernel
+
+/-- What is NOT proved: a bound in real numbers on `|snapped - arbM|` (and on the rounding of `arbM * postL / arbL` when a post
+    stage is split off).  It follows from the planner's test only through an error analysis of the three rounded binary64
+    operations in it (`frac * i`, `try / d`, `… - 1`); the model states the test in binary64 (`planner_search_spec`), and
+    the driver decides, in exact integers, `|product - io_ratio| <= 2^-32 · max(1, io_ratio)` on every plan of the sweep
+    (`RatePlan.productNear`) — the hypothesis Properties/C04 `drift_bound` takes. -/
+def Goal_snap_bound : Prop :=
+  ∀ (k : Knobs) (st : PSt) (i : Nat) (t : Int), isFin st.arbM → (core k st).found = some (i, t) →
+    |snappedValue (core k st).a3 i t - toRat (core k st).a3| * 2 ^ 32 ≤ 1
 
 end Soxr.Properties.C09
